@@ -118,7 +118,7 @@ impl<RS: Read + Seek> Seek for SeekableChain<RS> {
             SeekFrom::Start(offset) => self.seek_abs(offset),
             SeekFrom::Current(offset) => {
                 let new_pos = if offset < 0 {
-                    self.abs_pos.saturating_sub(-offset as u64)
+                    self.abs_pos.saturating_sub(offset.unsigned_abs())
                 } else {
                     self.abs_pos.saturating_add(offset as u64)
                 };
@@ -126,7 +126,7 @@ impl<RS: Read + Seek> Seek for SeekableChain<RS> {
             }
             SeekFrom::End(offset) => {
                 if offset <= 0 {
-                    self.seek_abs(self.max_pos.saturating_sub(-offset as u64))
+                    self.seek_abs(self.max_pos.saturating_sub(offset.unsigned_abs()))
                 } else {
                     self.seek_abs(self.max_pos.saturating_add(offset as u64))
                 }
